@@ -297,7 +297,25 @@ fn knots_and_duplicates(c: &mut Choices) -> String {
     let mut s = String::new();
     let n = 1 + c.below(4);
     for k in 0..n {
-        match c.below(18) {
+        match c.below(20) {
+            18 | 19 => {
+                // script types named like built-in ones, used where the built-in one has a special role
+                let name = ["Option", "Result", "Verdict", "List", "String", "Prefix", "bool", "u8"][c.below(8)];
+                let decl = match c.below(3) {
+                    0 => format!("enum {name}[T] {{ Nothing, Just(T) }}"),
+                    1 => format!("record {name} {{ v: u32 }}"),
+                    _ => format!("enum {name} {{ A, B(u32) }}"),
+                };
+                let usage = match c.below(6) {
+                    0 => format!("fn fs{k}(x: u32?) -> {name}[u32] {{ let y = x?; {name}.Just(y) }}"),
+                    1 => format!("fn fs{k}(x: u32?) -> {name} {{ let y = x?; {name} {{ v: y }} }}"),
+                    2 => format!("filtermap fs{k}(x: u32) {{ if x > 1 {{ accept {name}.B(x) }} reject }}"),
+                    3 => format!("fn fs{k}(x: {name}) -> u32 {{ match x {{ Some(v) => v, None => 0 }} }}"),
+                    4 => format!("fn fs{k}() -> {name} {{ [1, 2] }}\nfn gs{k}() -> String {{ f\"{{fs{k}()}}\" }}"),
+                    _ => format!("fn fs{k}(x: {name}[u8]) -> u8 {{ for y in x {{ return y; }} 0 }}"),
+                };
+                let _ = writeln!(s, "{decl}\n{usage}");
+            }
             16 | 17 => {
                 // types without values (an enum without variants, alone or inside other types) in
                 // places where a value is stored; the code that would make one never returns
